@@ -643,6 +643,61 @@ pub fn aligned_descendant_sweep(ctx: &Ctx, mode: Mode, total: &mut Part) -> Valu
     "offsets": "j * 4^k for every k below the depth difference, j in {1, 2, 3, 5, 6}", "flags": "all four mixes for the flagged modes"})
 }
 
+
+// ---------------------------------------------------------------------------------------------
+// same cell NUMBER at two depths: (d, j) and (d', j), d' < d, j >= 1 are disjoint cells that share
+// their hash number; code comparing hashes without (or with a clamped) depth difference confuses them
+// ---------------------------------------------------------------------------------------------
+
+pub fn same_number_sweep(ctx: &Ctx, mode: Mode, total: &mut Part) -> Value {
+  let mut n = 0u64;
+  for dm in [2u8, 3, 6] {
+    for d in 1..=dm.min(4) {
+      for dp in 0..d {
+        for j in 1..(12u64 << (2 * dp as u32)).min(40) {
+          if ctx.over_budget() {
+            total.caps.push(format!("wall budget {}s reached in the same-number sweep", ctx.budget_s));
+            return json!({"search": "same-number", "capped": true});
+          }
+          let sh = 2 * (dm - d) as u32;
+          let inside = (dm, (j << sh) + if sh > 0 { 1 } else { 0 }, true);
+          let mixes: &[(bool, bool, bool)] = if mode == Mode::Moc { &[(true, true, true)] } else { &[(true, true, true), (false, true, true), (true, false, true), (true, true, false), (false, false, false)] };
+          for &(f1, f2, f3) in mixes {
+            let a = Bm::new(d, vec![(d, j, f1)]);
+            // B: a cell inside (d, j) -- or (d, j) itself when dm == d -- then the coarser cell with the same number
+            let first = if dm == d { (d, j, f2) } else { (inside.0, inside.1, f2) };
+            let b = Bm::new(dm, vec![first, (dp, j, f3)]);
+            let (am, bm) = match (a.to_map(), b.to_map()) {
+              (Ok(x), Ok(y)) => (x, y),
+              _ => continue, // overlapping for this (d, d', j): not a BMOC
+            };
+            let (ai, bi) = (a.to_impl(), b.to_impl());
+            total.stratum("same-number-cells", 2, 0);
+            n += 1;
+            for (x, xi, xm, y, yi, ym) in [(&a, &ai, &am, &b, &bi, &bm), (&b, &bi, &bm, &a, &ai, &am)] {
+              for op in BIN_OPS {
+                total.stratum("same-number-cells", 0, 1);
+                let (out, v) = transition(mode, op, x, xi, xm, Some((y, yi, ym)), total);
+                if let Some(o) = out {
+                  total.outcome(hash64(&[o.entries.len() as u64, o.depth_max as u64, o.entries.first().map(|e| e.1).unwrap_or(0)]));
+                }
+                if let Some(v) = v {
+                  total.viol(v);
+                }
+              }
+            }
+            total.stratum("same-number-cells", 0, 1);
+            if let (_, Some(v)) = transition(mode, Op::Not, &b, &bi, &bm, None, total) {
+              total.viol(v);
+            }
+          }
+        }
+      }
+    }
+  }
+  json!({"search": "same-number", "operand_pairs": n, "shape": "{(d, j)} against {a cell inside (d, j), (d', j)} for every d' < d <= 4, j = 1..39, depth_max 2, 3, 6, all flag mixes"})
+}
+
 pub fn specs(mode: Mode, quick: bool) -> Vec<(UniverseSpec, usize)> {
   let partial = mode != Mode::Moc;
   let mut v = vec![];
@@ -688,6 +743,7 @@ pub fn run(ctx: &Ctx, mode: Mode) -> i32 {
   searches.push(size_sweep(ctx, mode, &mut total));
   searches.push(cascade_sweep(ctx, mode, &mut total));
   searches.push(aligned_descendant_sweep(ctx, mode, &mut total));
+  searches.push(same_number_sweep(ctx, mode, &mut total));
   let mut extra = Map::new();
   extra.insert("searches".into(), json!(searches));
   let what = match mode {
